@@ -14,7 +14,8 @@ QueriesOK(size, lob, hib, loi, hii, un) ==
    /\ loi = LoIndex' /\ hii = HiIndex'
    /\ (un = "T" => ValueUnique') /\ (un = "F" => ~ValueUnique')
    /\ (un = "U" => (k'.kind = "LIST" \/ (k'.kind = "ARRAY" /\ ~AllSet')))
-Q == QueriesOK(Ev.size, Ev.lob, Ev.hib, Ev.loi, Ev.hii, Ev.un)
+(* ... and the built-in functions SIZEOF, HIBOUND, LOBOUND, HIINDEX, LOINDEX, VALUE_UNIQUE give the same answers *)
+Q == QueriesOK(Ev.size, Ev.lob, Ev.hib, Ev.loi, Ev.hii, Ev.un) /\ Ev.builtins
 
 Report(clause, m, dev) ==
    PrintT("@@CASE " \o ToJson([line |-> l, clause |-> clause, must |-> m, acc |-> Ev.acc, dev |-> dev, cfg |-> k, ev |-> Ev]))
